@@ -323,7 +323,7 @@ var codeShapes = []string{
 }
 
 func genCode(t *rapid.T) CodeCase {
-	c := CodeCase{Shape: rapid.SampledFrom(codeShapes).Draw(t, "shape"), Wrap: rapid.SampledFrom([]string{"plain", "plain", "if", "range", "with", "helper", "print", "var", "else", "rec", "recbal"}).Draw(t, "wrap")}
+	c := CodeCase{Shape: rapid.SampledFrom(codeShapes).Draw(t, "shape"), Wrap: rapid.SampledFrom([]string{"plain", "plain", "if", "range", "with", "helper", "print", "var", "else", "rec", "recbal", "reserved"}).Draw(t, "wrap")}
 	c.Payload = evid.BStr(rapid.SampledFrom(payloads).Draw(t, "p1") + rapid.SampledFrom(payloads).Draw(t, "p2"))
 	if rapid.IntRange(0, 5).Draw(t, "typed") == 0 {
 		c.Typed = rapid.SampledFrom(tx.TypeNames).Draw(t, "type")
@@ -380,6 +380,14 @@ func (c CodeCase) render() (string, map[string]interface{}) {
 		act = "{{with .V}}{{.}}{{end}}"
 	case "helper":
 		pre = `{{define "h"}}{{.}}{{end}}`
+		act = `{{template "h" .V}}`
+	case "reserved":
+		// templates of the set that carry the names the engine gives to context-specific copies of "h", analysed
+		// in HTML text before "h" is needed in the hole
+		pre = `{{define "h"}}{{.}}{{end}}`
+		for _, n := range []string{"h$htmltemplate_StateSpecialElementBody_elementScript", "h$htmltemplate_StateSpecialElementBody_elementStyle", "h$htmltemplate_StateAttr_DelimDoubleQuote_attrHref_elementA", "h$htmltemplate_StateAttr_DelimDoubleQuote_attrSrc_elementScript", "h$htmltemplate_StateAttr_DelimDoubleQuote_attrOnclick_elementDiv", "h$htmltemplate_StateAttr_DelimDoubleQuote_attrSrcdoc_elementIframe"} {
+			pre += `{{define "` + n + `"}}{{.}}{{end}}{{template "` + n + `" "x"}}`
+		}
 		act = `{{template "h" .V}}`
 	case "print":
 		act = `{{.V | print}}`
@@ -832,7 +840,7 @@ func TestPropScheme(t *testing.T)   { evid.RunProp(t, "scheme", 0.7, genScheme, 
 // TestPropCodeAll: every shape x wrapper x a fixed payload list (deterministic part).
 func TestPropCodeAll(t *testing.T) {
 	shard, n := evid.Shard()
-	wraps := []string{"plain", "if", "else", "range", "with", "helper", "print", "var", "rec", "recbal"}
+	wraps := []string{"plain", "if", "else", "range", "with", "helper", "print", "var", "rec", "recbal", "reserved"}
 	pls := []string{"", "x", "\" onx=\"", "' onx='", "</script>", "-->", "javascript:alert(1)", "//evil.test/", " ", "\\", ".evil.test/"}
 	var all []CodeCase
 	for _, s := range codeShapes {
